@@ -43,13 +43,94 @@ func init() {
 	}
 }
 
-type skel struct {
+type aggqSkel struct {
 	t *tr
+	// placeholder of every function-local object (parameter, receiver, local variable or constant, label)
+	// met so far; aggqRenumber turns the placeholders into $0, $1 … in order of first appearance in the
+	// finished text, so that a skeleton does not depend on how the locals are called nor on locals that do
+	// not appear in it
+	canon map[types.Object]string
 }
 
-func (s *skel) src(n ast.Node) string { return phoutSrc(s.t, n) }
+// src: the source text as written (used to classify callees: log.Fatal, a.Log.Debug …)
+func (s *aggqSkel) src(n ast.Node) string { return phoutSrc(s.t, n) }
 
-func skelIgnoredCallee(name string) bool {
+func aggqIsLocal(obj types.Object) bool {
+	switch o := obj.(type) {
+	case *types.Label:
+		return true
+	case *types.Var:
+		return !o.IsField() && o.Pkg() != nil && o.Parent() != o.Pkg().Scope()
+	case *types.Const:
+		return o.Pkg() != nil && o.Parent() != o.Pkg().Scope() && o.Parent() != types.Universe
+	}
+	return false
+}
+
+// csrc: the source text with every function-local identifier replaced by its placeholder
+func (s *aggqSkel) csrc(n ast.Node) string {
+	if s.canon == nil {
+		s.canon = map[types.Object]string{}
+	}
+	type saved struct {
+		id   *ast.Ident
+		name string
+	}
+	var undo []saved
+	info := s.t.pkg.TypesInfo
+	ast.Inspect(n, func(c ast.Node) bool {
+		id, ok := c.(*ast.Ident)
+		if !ok {
+			return true
+		}
+		obj := info.Defs[id]
+		if obj == nil {
+			obj = info.Uses[id]
+		}
+		if obj == nil || !aggqIsLocal(obj) {
+			return true
+		}
+		ph, ok := s.canon[obj]
+		if !ok {
+			ph = fmt.Sprintf("@@%d@@", len(s.canon))
+			s.canon[obj] = ph
+		}
+		undo = append(undo, saved{id, id.Name})
+		id.Name = ph
+		return true
+	})
+	out := phoutSrc(s.t, n)
+	for _, u := range undo {
+		u.id.Name = u.name
+	}
+	return out
+}
+
+// aggqRenumber: placeholders → $0, $1 … in order of first appearance
+func aggqRenumber(text string) string {
+	seen := map[string]string{}
+	var b strings.Builder
+	for i := 0; i < len(text); {
+		if strings.HasPrefix(text[i:], "@@") {
+			if j := strings.Index(text[i+2:], "@@"); j >= 0 {
+				ph := text[i : i+2+j+2]
+				nm, ok := seen[ph]
+				if !ok {
+					nm = fmt.Sprintf("$%d", len(seen))
+					seen[ph] = nm
+				}
+				b.WriteString(nm)
+				i += len(ph)
+				continue
+			}
+		}
+		b.WriteByte(text[i])
+		i++
+	}
+	return b.String()
+}
+
+func aggqSkelIgnoredCallee(name string) bool {
 	switch {
 	case strings.Contains(name, ".Log."), strings.Contains(name, ".log."), strings.HasPrefix(name, "zap."):
 		return !strings.HasSuffix(name, ".Panic") && !strings.HasSuffix(name, ".Fatal")
@@ -65,7 +146,7 @@ func skelIgnoredCallee(name string) bool {
 
 // calls made by an expression, in evaluation order (arguments before the call), function literals skipped
 // unless they are called in place.
-func (s *skel) calls(e ast.Node) []string {
+func (s *aggqSkel) calls(e ast.Node) []string {
 	var out []string
 	var walk func(n ast.Node)
 	walk = func(n ast.Node) {
@@ -88,7 +169,7 @@ func (s *skel) calls(e ast.Node) []string {
 			}
 			tv, ok := s.t.pkg.TypesInfo.Types[x.Fun]
 			if ok && tv.IsBuiltin() && s.src(x.Fun) == "close" && len(x.Args) == 1 {
-				out = append(out, "close("+s.src(x.Args[0])+")")
+				out = append(out, "close("+s.csrc(x.Args[0])+")")
 				return
 			}
 			if ok && (tv.IsType() || tv.IsBuiltin()) {
@@ -100,9 +181,9 @@ func (s *skel) calls(e ast.Node) []string {
 				out = append(out, "exit")
 			case strings.HasSuffix(name, ".Panic"):
 				out = append(out, "panic")
-			case skelIgnoredCallee(name):
+			case aggqSkelIgnoredCallee(name):
 			default:
-				out = append(out, name)
+				out = append(out, s.csrc(x.Fun)+s.ctxArgs(x))
 			}
 			return
 		}
@@ -126,9 +207,30 @@ func (s *skel) calls(e ast.Node) []string {
 	return out
 }
 
-func (s *skel) block(list []ast.Stmt) string { return "{" + strings.Join(s.stmts(list), " ") + "}" }
+// ctxArgs: the arguments of a call that are contexts or cancel functions (who runs under which context is
+// part of the control structure): "(arg, …)", or "" when there are none
+func (s *aggqSkel) ctxArgs(c *ast.CallExpr) string {
+	var as []string
+	for _, a := range c.Args {
+		ty := s.t.pkg.TypesInfo.TypeOf(a)
+		if aggqIsContext(ty) || aggqIsCancelFunc(ty) {
+			as = append(as, s.csrc(a))
+		}
+	}
+	if len(as) == 0 {
+		return ""
+	}
+	return "(" + strings.Join(as, ", ") + ")"
+}
 
-func (s *skel) stmts(list []ast.Stmt) []string {
+func aggqIsCancelFunc(ty types.Type) bool {
+	n, ok := ty.(*types.Named)
+	return ok && n.Obj().Pkg() != nil && n.Obj().Pkg().Path() == "context" && n.Obj().Name() == "CancelFunc"
+}
+
+func (s *aggqSkel) block(list []ast.Stmt) string { return "{" + strings.Join(s.stmts(list), " ") + "}" }
+
+func (s *aggqSkel) stmts(list []ast.Stmt) []string {
 	var out []string
 	for _, st := range list {
 		out = append(out, s.stmt(st)...)
@@ -136,7 +238,7 @@ func (s *skel) stmts(list []ast.Stmt) []string {
 	return out
 }
 
-func (s *skel) stmt(st ast.Stmt) []string {
+func (s *aggqSkel) stmt(st ast.Stmt) []string {
 	switch x := st.(type) {
 	case nil:
 		return nil
@@ -162,27 +264,34 @@ func (s *skel) stmt(st ast.Stmt) []string {
 	case *ast.LabeledStmt:
 		inner := s.stmt(x.Stmt)
 		if len(inner) == 0 {
-			return []string{x.Label.Name + ":"}
+			return []string{s.csrc(x.Label) + ":"}
 		}
-		inner[0] = x.Label.Name + ":" + inner[0]
+		inner[0] = s.csrc(x.Label) + ":" + inner[0]
 		return inner
 	case *ast.ForStmt:
 		var pre []string
 		pre = append(pre, s.stmt(x.Init)...)
 		head := "for"
-		if x.Cond != nil {
-			head += "(" + s.src(x.Cond) + ")"
+		if x.Cond != nil || x.Post != nil {
+			head += "("
+			if x.Cond != nil {
+				head += s.csrc(x.Cond)
+			}
+			if post := s.stmt(x.Post); len(post) > 0 {
+				head += "; " + strings.Join(post, " ")
+			}
+			head += ")"
 		}
 		return append(pre, head+s.block(x.Body.List))
 	case *ast.RangeStmt:
-		return []string{"range(" + s.src(x.X) + ")" + s.block(x.Body.List)}
+		return []string{"range(" + s.csrc(x.X) + ")" + s.block(x.Body.List)}
 	case *ast.SelectStmt:
 		var cs []string
 		for _, c := range x.Body.List {
 			cc := c.(*ast.CommClause)
 			head := "default"
 			if cc.Comm != nil {
-				head = "case " + s.src(cc.Comm)
+				head = "case " + s.csrc(cc.Comm)
 			}
 			cs = append(cs, head+":"+s.block(cc.Body))
 		}
@@ -192,7 +301,7 @@ func (s *skel) stmt(st ast.Stmt) []string {
 		pre = append(pre, s.stmt(x.Init)...)
 		tag := ""
 		if x.Tag != nil {
-			tag = s.src(x.Tag)
+			tag = s.csrc(x.Tag)
 		}
 		var cs []string
 		for _, c := range x.Body.List {
@@ -201,7 +310,7 @@ func (s *skel) stmt(st ast.Stmt) []string {
 			if cc.List != nil {
 				var es []string
 				for _, e := range cc.List {
-					es = append(es, s.src(e))
+					es = append(es, s.csrc(e))
 				}
 				head = "case " + strings.Join(es, ",")
 			}
@@ -209,7 +318,7 @@ func (s *skel) stmt(st ast.Stmt) []string {
 		}
 		return append(pre, "switch("+tag+"){"+strings.Join(cs, " ")+"}")
 	case *ast.TypeSwitchStmt:
-		return []string{"typeswitch(" + s.src(x.Assign) + ")" + s.block(x.Body.List)}
+		return []string{"typeswitch(" + s.csrc(x.Assign) + ")" + s.block(x.Body.List)}
 	case *ast.IfStmt:
 		var pre []string
 		pre = append(pre, s.stmt(x.Init)...)
@@ -227,29 +336,35 @@ func (s *skel) stmt(st ast.Stmt) []string {
 		if body == "{}" && (els == "" || els == "else{}") {
 			return pre
 		}
-		return append(pre, "if("+s.src(x.Cond)+")"+body+els)
+		return append(pre, "if("+s.csrc(x.Cond)+")"+body+els)
 	case *ast.ReturnStmt:
 		var rs []string
 		for _, r := range x.Results {
-			rs = append(rs, s.src(r))
+			rs = append(rs, s.csrc(r))
 		}
 		return []string{"return(" + strings.Join(rs, ", ") + ")"}
 	case *ast.BranchStmt:
 		if x.Label != nil {
-			return []string{x.Tok.String() + " " + x.Label.Name}
+			return []string{x.Tok.String() + " " + s.csrc(x.Label)}
 		}
 		return []string{x.Tok.String()}
 	case *ast.ExprStmt:
 		return s.calls(x.X)
 	case *ast.SendStmt:
 		out := s.calls(x.Value)
-		return append(out, "send("+s.src(x.Chan)+")")
+		return append(out, "send("+s.csrc(x.Chan)+")")
 	case *ast.AssignStmt:
 		var out []string
+		if len(x.Lhs) == 2 && len(x.Rhs) == 1 {
+			if c, ok := x.Rhs[0].(*ast.CallExpr); ok && strings.HasPrefix(s.src(c.Fun), "context.With") && len(c.Args) >= 1 {
+				// child, cancel := context.WithCancel(parent)
+				return []string{"ctx(" + s.csrc(x.Lhs[0]) + ", " + s.csrc(x.Lhs[1]) + " <- " + s.csrc(c.Args[0]) + ")"}
+			}
+		}
 		for _, r := range x.Rhs {
 			out = append(out, s.calls(r)...)
 			if u, ok := r.(*ast.UnaryExpr); ok && u.Op == token.ARROW {
-				out = append(out, "recv("+s.src(u.X)+")")
+				out = append(out, "recv("+s.csrc(u.X)+")")
 			}
 		}
 		if len(x.Lhs) == 1 && len(x.Rhs) == 1 {
@@ -257,23 +372,20 @@ func (s *skel) stmt(st ast.Stmt) []string {
 			if x.Tok == token.DEFINE {
 				if tv, ok := s.t.pkg.TypesInfo.Types[x.Rhs[0]]; ok && tv.Type != nil && isBool(tv.Type) {
 					if _, isCall := x.Rhs[0].(*ast.CallExpr); !isCall {
-						out = append(out, "let "+s.src(x.Lhs[0])+"=("+s.src(x.Rhs[0])+")")
+						out = append(out, "let "+s.csrc(x.Lhs[0])+"=("+s.csrc(x.Rhs[0])+")")
 					}
 				}
 			}
 			// a field written without any call: keep it (nil-ing a channel disables a select case …)
 			if _, isSel := x.Lhs[0].(*ast.SelectorExpr); isSel && len(out) == 0 {
-				out = append(out, "set("+s.src(x.Lhs[0])+x.Tok.String()+s.src(x.Rhs[0])+")")
+				out = append(out, "set("+s.csrc(x.Lhs[0])+x.Tok.String()+s.csrc(x.Rhs[0])+")")
 			}
 		}
 		return out
 	case *ast.DeclStmt:
 		return s.calls(x)
 	case *ast.IncDecStmt:
-		if _, isSel := x.X.(*ast.SelectorExpr); isSel {
-			return []string{s.src(x.X) + x.Tok.String()}
-		}
-		return nil
+		return []string{s.csrc(x.X) + x.Tok.String()}
 	case *ast.EmptyStmt:
 		return nil
 	case *ast.BlockStmt:
@@ -323,10 +435,10 @@ func aggqEmit(b *strings.Builder, t *tr, leanName, recv, fn, file string) {
 		fmt.Fprintf(b, "def %s : String := \"<missing>\"\n\n", leanName)
 		return
 	}
-	s := &skel{t: t}
-	sig := phoutSrc(t, fd.Type)
-	fmt.Fprintf(b, "/-- regenerated control skeleton of `%s` `(%s).%s` -/\ndef %s : String :=\n  %s\n\n", file, recv, fn, leanName,
-		aggqLeanStr(sig+" "+s.block(fd.Body.List)))
+	s := &aggqSkel{t: t}
+	sig := s.csrc(fd.Type)
+	fmt.Fprintf(b, "/-- regenerated control skeleton of `%s` `(%s).%s` (function-local names are $0, $1 … in order of appearance) -/\ndef %s : String :=\n  %s\n\n", file, recv, fn, leanName,
+		aggqLeanStr(aggqRenumber(sig+" "+s.block(fd.Body.List))))
 }
 
 func aggqConst(t *tr, p *packages.Package, e ast.Expr) (int64, bool) {
@@ -418,6 +530,7 @@ func aggqExtra(t *tr) string {
 			toWait = 0
 		}
 		fmt.Fprintf(&b, "/-- regenerated: `const resultsToWait` of `newAwaitRunHandle` -/\ndef engineResultsToWait : Nat := %d\n\n", toWait)
+		aggqEngineFacts(&b, t2, p)
 		t.errs = append(t.errs, t2.errs...)
 	}
 
@@ -437,6 +550,7 @@ func aggqExtra(t *tr) string {
 		t2 := &tr{pkg: p, known: map[string]string{}}
 		aggqEmit(&b, t2, "cliAwaitTermination", "", "awaitPandoraTermination", "cli/cli.go")
 		aggqEmit(&b, t2, "cliRunEngine", "", "runEngine", "cli/cli.go")
+		aggqEmit(&b, t2, "cliReadConfigAndRunEngine", "", "ReadConfigAndRunEngine", "cli/cli.go")
 		t.errs = append(t.errs, t2.errs...)
 	}
 	return b.String()
